@@ -119,6 +119,17 @@ type Layout struct {
 	Compact         bool   `json:"compact,omitempty"`           // minimal white space inside dictionaries/arrays
 	TrailerSameLine bool   `json:"trailer_same_line,omitempty"` // "trailer << … >>" on one line
 	Version         string `json:"version,omitempty"`           // header version, default 1.7
+	// Patches are deliberate faults applied to single objects (robustness property only).
+	Patches []Patch `json:"patches,omitempty"`
+}
+
+// Patch replaces Len bytes at offset Off of the serialised body of object ID by New before the file is laid
+// out, so that the fault is the only thing wrong with the file (all cross-reference offsets stay right).
+type Patch struct {
+	ID  string `json:"id"`
+	Off int    `json:"off"`
+	Len int    `json:"len"`
+	New string `json:"new"`
 }
 
 func (l Layout) xrefKind(rev int) string {
